@@ -24,6 +24,19 @@ func C10(c *core.Ctx) {
 	c10Sign(c)
 	c10Unmarshal(c)
 	c10SignedFlag(c)
+	c10ContextPropagation(c)
+	// R6: a verification that succeeds has verified every signature (C09-R4, re-reported): the
+	// outcome of verify after any history of sign / edit / sign does not depend on which
+	// signature happens to come first
+	c.Rule("C10-R6", "Envelope.Verify heeds the verification of every signature (shared with C09-R4)", 1)
+	sub9 := core.NewCtx("C09", c.Tier, c.Seed, c.P, c.VerifDir)
+	sub9.Quiet = true
+	C09(sub9)
+	for _, o := range sub9.Obligations() {
+		if o.Rule == "C09-R4" {
+			c.ObAt("C10-R6", o.Key, o.Pos, o.OK, o.Msg)
+		}
+	}
 	_ = p
 }
 
@@ -416,3 +429,97 @@ func whenSigned(info *types.Info, body ast.Node, rule ast.Expr, isIsSigned func(
 	return found
 }
 
+
+// c10ContextPropagation — C10-R5: whether the envelope is signed reaches the
+// document's validators through the context. Every ValidateWithContext method
+// of the module hands its context (or one derived from it) to the validation
+// calls it makes, and makes no context-free validation call: a single
+// `validation.Validate(x)` on the way cuts everything below it off from the
+// signed flag (an invoice without a code could be signed).
+func c10ContextPropagation(c *core.Ctx) {
+	p := c.P
+	c.Rule("C10-R5", "ValidateWithContext methods pass their context on to every nested validation", 20)
+	const vpkg = "github.com/invopop/validation"
+	for _, fd := range p.AllFuncs() {
+		if fd.Obj.Name() != "ValidateWithContext" || fd.Decl.Recv == nil || p.IsTestFile(fd.Decl.Pos()) {
+			continue
+		}
+		sig := fd.Obj.Type().(*types.Signature)
+		if sig.Params().Len() != 1 || core.TypeString(sig.Params().At(0).Type()) != "context.Context" {
+			continue
+		}
+		info := fd.Pkg.TypesInfo
+		ctx := sig.Params().At(0)
+		ld := core.NewLocalDefs(info, fd.Decl.Body)
+		// derived from the context: the expression mentions the context parameter, or a local
+		// every definition of which is derived from it
+		var fromCtx func(e ast.Expr, depth int) bool
+		fromCtx = func(e ast.Expr, depth int) bool {
+			if depth > 4 {
+				return false
+			}
+			found := false
+			ast.Inspect(e, func(k ast.Node) bool {
+				id, ok := k.(*ast.Ident)
+				if !ok || found {
+					return true
+				}
+				v, _ := info.Uses[id].(*types.Var)
+				if v == nil {
+					return true
+				}
+				if v == ctx {
+					found = true
+					return true
+				}
+				if t := v.Type(); core.TypeString(t) == "context.Context" && !v.IsField() {
+					ds := ld.All(v)
+					all := len(ds) > 0
+					for _, d := range ds {
+						if d.RHS == nil || !fromCtx(d.RHS, depth+1) {
+							all = false
+						}
+					}
+					if all {
+						found = true
+					}
+				}
+				return true
+			})
+			return found
+		}
+		bad := ""
+		n := 0
+		ast.Inspect(fd.Decl.Body, func(m ast.Node) bool {
+			call, ok := m.(*ast.CallExpr)
+			if !ok || bad != "" {
+				return true
+			}
+			fn := core.Callee(info, call)
+			if fn == nil || fn.Pkg() == nil {
+				return true
+			}
+			isVal := fn.Pkg().Path() == vpkg || (core.InModule(fn.Pkg()) && core.RelPkg(fn.Pkg().Path()) == "tax")
+			if !isVal {
+				return true
+			}
+			switch fn.Name() {
+			case "Validate", "ValidateStruct":
+				if core.RecvNamed(fn) == nil {
+					bad = fmt.Sprintf("%s.%s at %s is the context-free form", fn.Pkg().Name(), fn.Name(), p.Rel(call.Pos()))
+				}
+			case "ValidateWithContext", "ValidateStructWithContext":
+				if core.RecvNamed(fn) == nil && len(call.Args) > 0 {
+					n++
+					if !fromCtx(call.Args[0], 0) {
+						bad = fmt.Sprintf("%s.%s at %s is not given the method's context", fn.Pkg().Name(), fn.Name(), p.Rel(call.Pos()))
+					}
+				}
+			}
+			return true
+		})
+		c.Ob("C10-R5", fd.Name()+"#context-passed-on", fd.Decl.Pos(), bad == "",
+			"the context does not reach the nested validation ("+bad+"): rules that depend on the envelope being signed (code required to sign, stamps only when signed) are not applied below this point")
+		_ = n
+	}
+}
